@@ -1,6 +1,8 @@
 """C01 - analytic component derivatives equal the true derivatives at every input."""
 import warnings
 
+import os
+
 import numpy as np
 
 from ..obs import Obs
@@ -201,8 +203,11 @@ def far_variant(name, inputs, rng, end=None):
 
 
 def replay_events(o, evs, jitter, rng, tags):
+    only = [x for x in os.environ.get("VERIF_ONLY_CLASS", "").split(",") if x]  # tools/mutate.py: restrict the replay to some classes
     for ev in evs:
         name = ev["cls"].__name__
+        if only and name not in only:
+            continue
         fam = "c01/" + name
         skip = skip_masks(ev)
         # the same component instance is linearised at several points in a row (far point, jittered points, then the captured
